@@ -158,7 +158,7 @@ Definition deliver1 : M unit :=
       else if kind_eqb k K_RBRACE then
         match scopes s with
         | _ :: (_ :: _) as sc' => Ok (tt, mkPS r (eof_file s) (before s) (after s ++ [t]) (idx s) sc' fa (ticks s))
-        | _ => Crash CK_Assertion
+        | _ => Err (L_file fa) (s2l "Unmatched '}'")     (* _lex_on_rbrace_func; clex.filename is the lexer's current file *)
         end
       else Ok (tt, mkPS r (eof_file s) (before s) (after s ++ [t]) (idx s) (scopes s) fa (ticks s))
     end.
